@@ -61,6 +61,49 @@ var curSource = "os" // kind of the source the harness installed last
 
 // maybeCut marks a point where no specification state is carried over, so
 // that the driver may split the trace there (one TLC process per shard).
+// Echoes: a sample of the calls made by the data-level families is repeated later - 3, 60, 1 100, 2 300, 9 000 and
+// 40 000 events later - so that anything that remembers earlier calls (bounded caches, memo tables, rings that
+// wrap, counters) is asked again about an input after much else has happened.  Each echo is an ordinary event,
+// validated natively.
+type echo struct {
+	due int
+	run func()
+}
+
+var echoes []echo
+var echoN int
+var echoOn bool
+var echoDist = []int{3, 60, 1100, 2300, 9000, 40000}
+
+func scheduleEcho(run func()) {
+	if !echoOn || concMode {
+		return
+	}
+	echoN++
+	if echoN%23 != 0 {
+		return
+	}
+	echoes = append(echoes, echo{nEvents + echoDist[(echoN/23)%len(echoDist)], run})
+}
+
+func runEchoes(all bool) {
+	if len(echoes) == 0 {
+		return
+	}
+	on := echoOn
+	echoOn = false // echoes do not schedule echoes
+	var keep []echo
+	for _, e := range echoes {
+		if all || e.due <= nEvents {
+			e.run()
+		} else {
+			keep = append(keep, e)
+		}
+	}
+	echoes = keep
+	echoOn = on
+}
+
 var disturbN int
 
 // disturb: between the units of a data-level family, a rotation of calls that FAIL in every way the API can
@@ -102,6 +145,7 @@ func maybeCut() {
 		if !concMode && disturbOn {
 			disturb() // first thing in the new unit, so that a replay of the unit contains it
 		}
+		runEchoes(false)
 	}
 }
 
